@@ -48,7 +48,7 @@ def describe(tier):
 
 
 def blocks(tier):
-    out = []
+    out = [("residue", {"i": i}) for i in range(len(RESIDUE_DATA))]
     for si, cfg in enumerate(SETS[tier]):
         for N in cfg["Ns"]:
             if cfg["D"] == 0:
@@ -144,7 +144,61 @@ def check_zero(N, cfg, acc, only_call=None):
         acc.case(("zero", N, agg, ignore, ws, fs), nontrivial=False, outcome=("zero", agg, bool(emiss.any())), sample=case)
 
 
+# Rounding residue: with a dozen rows and decimal weights the marginal differencing of the index cube leaves several ulps in a
+# reconstructed cell that holds no row; the missing-cell rule must survive that (and tiny genuine weights must not be snapped away
+# is NOT claimed: the statement's rule is about rows).
+RESIDUE_DATA = [
+    ((1, 1, 2, 2, 0, 0, 2, 2, 0, 0, 2, 1), (0, 2, 0, 1, 1, 1, 0, 0, 2, 2, 2, 1)),
+    ((0, 1, 2, 0, 1, 2, 0, 1, 2, 0, 1, 2), (1, 1, 1, 2, 2, 0, 1, 0, 0, 2, 2, 1)),
+    ((1, 1, 1, 1, 2, 2, 2, 2, 1, 2, 1, 2), (0, 1, 2, 0, 1, 2, 2, 1, 0, 0, 1, 2)),
+    ((0, 0, 0, 1, 1, 1, 2, 2, 2, 1, 1, 2), (1, 2, 1, 0, 2, 0, 1, 0, 0, 1, 2, 2)),
+    ((2, 1, 2, 1, 2, 1, 2, 1, 2, 1, 2, 1), (1, 2, 1, 2, 1, 2, 1, 2, 2, 1, 2, 1)),
+]
+
+
+def residue_calls(N):
+    D = tuple("D" * N)
+    wss = [("array", D, "nan"), ("array", tuple("DP" * (N // 2)), "nan"), ("array", tuple("DDM" * (N // 3)), "nan"), ("array", tuple("DZD" * (N // 3)), "pair-nan")]
+    none = tuple([False] * N)
+    one = tuple([i == 4 for i in range(N)])
+    fss = [(0, "pow2", none, "nan"), (0, "mixed", one, "nan"), (2, "pow2", tuple([False] * (2 * N)), "pair-huge"), (2, "mixed", tuple([i in (3, 8) for i in range(2 * N)]), "nan")]
+    for ignore in (False, True):
+        for ws in wss:
+            yield ("count", ignore, ws, None)
+            for fs in fss:
+                for agg in ("mean", "sum", "valid_count"):
+                    yield (agg, ignore, ws, fs)
+
+
+def check_residue(i, acc, only_call=None, only_commons=None):
+    from catii.ccubes import ccube
+    from catii.xcubes import xcube
+
+    datas = RESIDUE_DATA[i]
+    N, E = 12, 3
+    denses = [numpy.array(t, dtype=numpy.int64) for t in datas]
+    shape = (E,) * 2
+    cells = M.cell_rows(denses, shape, N)
+    commons_list = [(0, 0), (1, 0), (2, 2), (0, 1), (1, 2)] if only_commons is None else [tuple(only_commons)]
+    dims_by = {cs: [M.build_index(d, c) for d, c in zip(denses, cs)] for cs in commons_list}
+    for call in (residue_calls(N) if only_call is None else [only_call]):
+        agg, ignore, ws, fs = call
+        f_arg, x, valid, K, w_arg, w, wok = c03.realise(N, ws, fs)
+        grand = Q.grand_total(x, w, N, K)
+        evals, emiss = Q.oracle(agg, cells, shape, N, K, x, valid, w, wok, ignore)
+        base = {"residue": i, "data": [list(t) for t in datas], "E": E, "agg": agg, "ignore": ignore, "weights": ws, "fact": fs}
+        check_formats("xcube", lambda: xcube(denses, interacting_shape=shape), call, N, evals, emiss, grand, acc, dict(base, cube="xcube"))
+        for cs in commons_list:
+            dims = dims_by[cs]
+            check_formats("ccube", lambda: ccube(dims, interacting_shape=shape), call, N, evals, emiss, grand, acc, dict(base, cube="ccube", commons=list(cs)))
+            acc.case(("residue", i, cs, agg, ignore, ws, fs), nontrivial=bool(emiss.any() and (~emiss).any()), outcome=("residue", agg, ignore, int(emiss.sum())),
+                     sample=lambda: dict(base, commons=list(cs)))
+
+
 def run_block(family, p, acc):
+    if family == "residue":
+        check_residue(p["i"], acc)
+        return
     cfg = SETS[p["tier"]][p["si"]]
     N = p["N"]
     if family == "zero":
@@ -162,7 +216,9 @@ def replay(case, site=None):
     acc = Acc(ID, [], stop_at_first=False)
     call = (case["agg"], case["ignore"], c03._tupleize(case["weights"]), c03._tupleize(case["fact"]) if case["fact"] is not None else None)
     cfg = dict(wl=0, Ks=[0], fl=1, forms=["nan"], vals=["pow2"], wforms=True)
-    if not case["data"]:
+    if "residue" in case:
+        check_residue(case["residue"], acc, only_call=call, only_commons=case.get("commons"))
+    elif not case["data"]:
         check_zero(case["N"], cfg, acc, only_call=call)
     else:
         datas = [tuple(t) for t in case["data"]]
